@@ -40,7 +40,7 @@ Proof.
   - inversion H; subst. exists []. auto.
   - inversion HR as [|? ? Hr HR']; subst. simpl in Hr. subst r.
     rewrite process_frames_app in H. unfold process_data.
-    destruct (process_frames e st p) as [[st1 o1] [|]]; [|discriminate].
+    destruct (process_frames e st p) as [[st1 o1] [|]]; [|discriminate]. cbn [andb].
     destruct (process_frames e st1 (concat (map fst steps))) as [[st2 o2] ok] eqn:E.
     inversion H; subst.
     destruct (IH st1 st' o2 HR' E) as (outs & Hrun & Hc & Hl).
